@@ -1,3 +1,59 @@
-From OV Require Import Rt.RtFsDefs.
-Theorem C10_placeholder : True. Proof. exact I. Qed.
-Print Assumptions C10_placeholder.
+(* C10 - I/O faults are never silent: the runtime aborts with a diagnostic or leaves a complete valid trace;
+   it never returns normally after losing flushed events and never deletes the only complete copy.
+   Only statements here; model and spec: Rt/RtFsDefs.v; proofs: Proofs/RtFsProofs.v.
+   The theorems are about the REPAIRED relocation (patches/fix-c10-c09-move-to-final.diff, variant New);
+   C10_single_fault_refuted_old is about the relocation as found (variant Old).
+   Reading of "complete valid trace" (stated in manifest.d/C10.json): every stream of the program is complete
+   - stream.json parses with finished = 1 and stream.obs holds every byte handed to write() - in its final
+   or in its temporary directory.  proof (partial): kernel/file-system semantics, stdio buffering (any buffer
+   size is covered), errors reported late by the kernel and power loss are not exhibited by the model. *)
+From Coq Require Import ZArith List.
+From OV Require Import Rt.RtFsDefs Proofs.RtFsProofs.
+Import ListNotations.
+Local Open Scope Z_scope.
+
+(* every program (any number of threads and flushes), both modes, every readdir order, every stdio buffer
+   size, every position i of the failing call and every fault kind (error return, short count) *)
+Theorem C10_single_fault : forall bufsz m P rho i fk, wf_program P -> wf_order rho ->
+  let s := apply_with_fault bufsz i fk (itrace New m P rho) in
+  outcome_of P s = AbortWithDiagnostic \/ outcome_of P s = CompleteValidTrace.
+Proof. intros bufsz m P rho i fk WP W. exact (proj1 (C10_all bufsz m P rho WP W i fk)). Qed.
+Print Assumptions C10_single_fault.
+
+(* no source file is removed unless its copy in the final directory is complete - also when the run aborts *)
+Theorem C10_no_orphan_delete : forall bufsz m P rho i fk, wf_program P -> wf_order rho ->
+  orphan_delete (apply_with_fault bufsz i fk (itrace New m P rho)) P = false.
+Proof. intros bufsz m P rho i fk WP W. exact (proj2 (C10_all bufsz m P rho WP W i fk)). Qed.
+Print Assumptions C10_no_orphan_delete.
+
+(* the relocation as found: fwrite failing during the copy of stream.obs is ignored, the source is removed,
+   the program returns normally without any diagnostic (witness replayed by lib/checks/c10.py) *)
+Theorem C10_single_fault_refuted_old :
+  exists bufsz m P rho i fk, wf_program P /\ wf_order rho /\
+    let s := apply_with_fault bufsz i fk (itrace Old m P rho) in
+    outcome_of P s = ReturnedIncomplete /\ m_diag s = false /\ orphan_delete s P = true.
+Proof. exact RtFsProofs.C10_single_fault_refuted_old. Qed.
+Print Assumptions C10_single_fault_refuted_old.
+
+(* non-vacuity: both outcomes occur, and the interesting one - returned normally with the stream kept in
+   the temporary directory after a failed copy - is reached (call 36 = fwrite into the final stream.obs) *)
+Example C10_example_copy_fails :
+  let s := apply_with_fault 4096 35 FErr (itrace New TmpMode P_w rho_json_first) in
+  outcome_of P_w s = CompleteValidTrace /\ m_dead s = false /\ m_diag s = true /\
+  stream_complete (m_fs s) Tmp th_w = true /\ stream_complete (m_fs s) Fin th_w = false.
+Proof. cbv zeta. repeat split; vm_compute; reflexivity. Qed.
+
+Example C10_example_abort :
+  let s := apply_with_fault 4096 15 FErr (itrace New TmpMode P_w rho_json_first) in
+  outcome_of P_w s = AbortWithDiagnostic.
+Proof. vm_compute; reflexivity. Qed.
+
+Example C10_example_short_write :
+  let s := apply_with_fault 4096 19 (FShort 5) (itrace New Direct P_w rho_obs_first) in
+  outcome_of P_w s = CompleteValidTrace /\ stream_complete (m_fs s) Fin th_w = true.
+Proof. cbv zeta. split; vm_compute; reflexivity. Qed.
+
+Example C10_example_no_fault :
+  let s := apply_with_fault 4096 1000 FErr (itrace New TmpMode P_w rho_obs_first) in
+  outcome_of P_w s = CompleteValidTrace /\ stream_complete (m_fs s) Fin th_w = true /\ m_diag s = false.
+Proof. cbv zeta. repeat split; vm_compute; reflexivity. Qed.
